@@ -82,10 +82,12 @@ def run(ctx):
     stride = 1 if ctx.tier == "thorough" else 10
     off = ctx.rng.randrange(stride)
     reqs, reals = [], []
+    extremes = set(sorted(names, key=len)[-12:] + sorted(names, key=len)[:12] + [names[0], names[-1]])
     for i, name in enumerate(names):
-        if i % stride != off and name not in ("amp", "amp;", "not", "notin;", "lt", "gt;", "AMP"):
-            continue
-        for fol in FOLLOW:
+        full = i % stride == off or name in ("amp", "amp;", "not", "notin;", "lt", "gt;", "AMP") or name in extremes
+        # every name of the table is looked up at least once per run (with nothing after it); the stratified sample and the
+        # table's extremes (longest, shortest, first, last) get every follower
+        for fol in (FOLLOW if full else [""]):
             s = name + fol
             # a follower may extend the name into another key; the reference below handles that too
             cases = [("data", "&" + s, "dataState"), ("rcdata", "&" + s, "rcdataState"),
